@@ -26,21 +26,33 @@ package eval
 // pipeline accepts iff both. In particular the old key stops working right after a rekey and works
 // again after rekeying back.
 //
+// Cache pipeline (seeded change C28-A): every probe that is valid for its claimed authorizer is verified
+// and cached through verify.TxnGroup with a real VerifiedTransactionCache; the same transaction and
+// signature material is then presented with AuthAddr in {unset, K, X, M, L, L0, PQ}. If the presented
+// authorizer is the sender's current one, the presentation is put into a generated block and the block
+// is validated by the real Eval(validate=true, warm cache, backlog pool) — the Ledger.Validate path;
+// otherwise the decision GetUnverifiedTransactionGroups + TxnGroup is taken. Accepted iff the
+// presentation is exactly the cached one.
+//
 // Not covered: rekeys performed by inner transactions, groups > 1 in the probe.
 // Unexported identifiers used: newTestLedger, evalTestLedger.StartEvaluator (upstream test helpers).
 
 import (
+	"context"
 	"fmt"
+	"sync/atomic"
 	"testing"
 
 	"github.com/algorand/go-algorand/crypto"
 	"github.com/algorand/go-algorand/data/basics"
 	"github.com/algorand/go-algorand/data/bookkeeping"
+	"github.com/algorand/go-algorand/data/committee"
 	"github.com/algorand/go-algorand/data/transactions"
 	"github.com/algorand/go-algorand/data/transactions/logic"
 	"github.com/algorand/go-algorand/data/transactions/verify"
 	ledgertesting "github.com/algorand/go-algorand/ledger/testing"
 	"github.com/algorand/go-algorand/protocol"
+	"github.com/algorand/go-algorand/util/execpool"
 	ve "github.com/algorand/go-algorand/verifeng"
 )
 
@@ -274,9 +286,105 @@ func TestVerif_C28_e(t *testing.T) {
 			r.Add("pipeline_accepted", 1)
 		}
 	})
+
+	// ---- cache pipeline: eval.Eval (the entry point of Ledger.Validate) with a WARM verified-
+	// transaction cache. For every probe whose authorization is valid for its claimed authorizer:
+	// verify + cache it (verify.TxnGroup with a real VerifiedTransactionCache), then present the same
+	// transaction and signature material with AuthAddr set to each of 7 values (unset, K, X, M, L,
+	// rejecting-contract address, PQ address; one of them is the original). When the presented
+	// authorizer is the sender's current one the presentation is put into a block (generated by a
+	// fresh evaluator, which trusts its input like the pool does) and the block is validated with
+	// Eval(validate=true, warm cache, backlog pool); otherwise the cache + TxnGroup decision is
+	// taken directly. Oracle: accepted iff the presentation is the cached one (the signature
+	// material is bound to one authorizer address) — and, for blocks, the claimed authorizer is current.
+	pool := execpool.MakeBacklog(nil, 0, execpool.LowPriority, nil)
+	defer pool.Shutdown()
+	presAddrs := []basics.Address{{}, kAddr, xAddr, mAddr, lAddr, l0Addr, pAddr}
+	presNames := []string{"unset", "K", "X", "M", "L", "L0", "PQ"}
+	var sigStageReports, blockReports atomic.Int64
+	visited2 := r.ParallelFor(len(probes), func(i int) {
+		p := probes[i]
+		cur := make([]basics.Address, len(senderNames))
+		for k := range cur {
+			cur[k] = genesisAuth[k]
+			if cur[k].IsZero() {
+				cur[k] = addrs[k]
+			}
+		}
+		var steps []transactions.SignedTxn
+		for k, st := range scenarios[p.sc].steps {
+			steps = append(steps, st.sign(mkTx(st.sender, fmt.Sprintf("c28-step-%d", k), st.rekey)))
+			cur[st.sender] = st.newCur
+		}
+		tx := mkTx(p.si, "c28-probe", basics.Address{})
+		w, validForClaimed := forms[p.fi].build(tx, secrets[p.si])
+		if !validForClaimed {
+			return
+		}
+		hdr := nextHdr
+		cache := verify.MakeVerifiedTransactionCache(64)
+		if _, err := verify.TxnGroup([]transactions.SignedTxn{w}, &hdr, cache, l); err != nil {
+			r.Report("C28:eval:cache-warmup", fmt.Sprintf("scenario %q, sender %s, %s: valid authorization rejected when verified with a cache: %v", p.Scenario, p.Sender, p.Form, err), p)
+			return
+		}
+		spec := transactions.SpecialAddresses{FeeSink: hdr.FeeSink, RewardsPool: hdr.RewardsPool}
+		for ai, a := range presAddrs {
+			pres := w
+			pres.AuthAddr = a
+			same := a == w.AuthAddr
+			current := pres.Authorizer() == cur[p.si]
+			r.Eval()
+			if !current {
+				unv := cache.GetUnverifiedTransactionGroups([][]transactions.SignedTxn{{pres}}, spec, hdr.CurrentProtocol)
+				accepted := len(unv) == 0
+				if !accepted {
+					_, err := verify.TxnGroup([]transactions.SignedTxn{pres}, &hdr, nil, l)
+					accepted = err == nil
+				}
+				r.Class(fmt.Sprintf("e/cache/not-current/same=%v/sig-stage-accepted=%v", same, accepted))
+				if accepted != same && sigStageReports.Add(1) <= 2 { // keep room for block-level reports
+					r.Report("C28:eval:cache-sigstage", fmt.Sprintf("scenario %q, sender %s, cached %q, presented with AuthAddr=%s: signature stage with warm cache accepted=%v, oracle says %v", p.Scenario, p.Sender, p.Form, presNames[ai], accepted, same), p)
+				}
+				continue
+			}
+			// block path
+			ev, err := l.StartEvaluator(nextHdr, 0, 0, nil)
+			if err != nil {
+				r.Note("harness: StartEvaluator: %v", err)
+				r.Capped()
+				return
+			}
+			ok := true
+			for _, st := range append(append([]transactions.SignedTxn{}, steps...), pres) {
+				if err := ev.TransactionGroup(st.WithAD()); err != nil {
+					r.Note("harness: generating evaluator refused a presentation whose claimed authorizer is current (%s / %s / %s / AuthAddr=%s): %v", p.Scenario, p.Sender, p.Form, presNames[ai], err)
+					r.Add("cache_blocks_not_generated", 1)
+					ok = false
+					break
+				}
+			}
+			if !ok {
+				continue
+			}
+			ub, err := ev.GenerateBlock(nil)
+			if err != nil {
+				r.Note("harness: GenerateBlock: %v", err)
+				r.Add("cache_blocks_not_generated", 1)
+				continue
+			}
+			blk := ub.FinishBlock(committee.Seed{0x28}, addrs[9], false)
+			_, verr := Eval(context.Background(), l, blk, true, cache, pool, nil)
+			accepted := verr == nil
+			r.Add("cache_blocks_validated", 1)
+			r.Class(fmt.Sprintf("e/cache/block/same=%v/accepted=%v", same, accepted))
+			if accepted != same && blockReports.Add(1) <= 3 {
+				r.Report("C28:eval:cache-block", fmt.Sprintf("scenario %q, sender %s, cached %q (authorizer %v), block carrying the same txn and signature with AuthAddr=%s (authorizer %v = current): Eval with the warm cache accepted=%v (err %v), oracle says %v", p.Scenario, p.Sender, p.Form, w.Authorizer(), presNames[ai], pres.Authorizer(), accepted, verr, same), p)
+			}
+		}
+	})
 	cov := ve.Coverage{
-		Rule:       fmt.Sprintf("part e: %d probes = %d ledger scenarios (genesis, rekey, rekey-back, rekey-on, rekey to msig / lsig) x %d senders (plain, rekeyed to key / multisig / contract / PQ address) x %d authorization forms, each through verify.TxnGroup and BlockEvaluator.TransactionGroup on a fresh evaluator", len(probes), len(scenarios), len(senderNames), len(forms)),
-		Exhaustive: visited == int64(len(probes)),
+		Rule:       fmt.Sprintf("part e: %d probes = %d ledger scenarios (genesis, rekey, rekey-back, rekey-on, rekey to msig / lsig) x %d senders (plain, rekeyed to key / multisig / contract / PQ address) x %d authorization forms, each through verify.TxnGroup and BlockEvaluator.TransactionGroup on a fresh evaluator; plus, for every probe valid for its claimed authorizer, 7 AuthAddr presentations of the same txn+signature against a verified-transaction cache warmed with it — through eval.Eval(validate, warm cache) on a generated block when the presented authorizer is current, else through GetUnverifiedTransactionGroups + TxnGroup", len(probes), len(scenarios), len(senderNames), len(forms)),
+		Exhaustive: visited == int64(len(probes)) && visited2 == int64(len(probes)),
 	}
 	if n := r.Finish(cov); n > 0 {
 		t.Fatalf("C28 part e: %d violation(s)", n)
